@@ -100,9 +100,9 @@ theorem mapIP_attr {Kn Ka : List HTree} (w : Work g R fs c vc (Kn ++ Ka) n v)
 
 /-- One step of the replay: `any_append(current, new_node)` puts the new node where `snocClone`
     says, and does not fail. -/
-theorem anyAppend_fresh (w : Work g R fs c vc K n v) (adm : Admissible vc K v) :
-    g.anyAppend c n =
-      (g.withRoots (R ++ [fcPlug fs (.node c vc (snocClone g.consolidation K (.node n v [])))]), .ok, n) := by
+theorem anyAppend_fresh12 (w : Work g R fs c vc K n v) (adm : Admissible vc K v) :
+    ((g.anyAppend c n).1, (g.anyAppend c n).2.1) =
+      (g.withRoots (R ++ [fcPlug fs (.node c vc (snocClone g.consolidation K (.node n v [])))]), .ok) := by
   unfold Forest.anyAppend
   rw [w.value?_n]
   cases v with
@@ -144,6 +144,17 @@ theorem anyAppend_fresh (w : Work g R fs c vc K n v) (adm : Admissible vc K v) :
     obtain ⟨h1, Kn, Ka, rfl, h2, h3⟩ := adm
     rw [w.appendEntryNode_fresh .attributes h1 rfl (w.mapGetNode_attr_none a h2 h3)
       (w.mapIP_attr h2 (fun k hk => (h3 k hk).1)), snocClone_nontext _ _ _ rfl]
+
+/-- The same with the answered handle (the new node, or the text node it was merged into). -/
+theorem anyAppend_fresh (w : Work g R fs c vc K n v) (adm : Admissible vc K v) :
+    ∃ h, g.anyAppend c n =
+      (g.withRoots (R ++ [fcPlug fs (.node c vc (snocClone g.consolidation K (.node n v [])))]), .ok, h) := by
+  have h := w.anyAppend_fresh12 adm
+  refine ⟨(g.anyAppend c n).2.2, ?_⟩
+  have h1 := congrArg Prod.fst h
+  have h2 := congrArg Prod.snd h
+  simp only at h1 h2
+  rw [← h1, ← h2]
 
 end Work
 end XotModel
